@@ -65,7 +65,7 @@ def _one(args):
     try:
         dst = os.path.join(scratch, "src")
         shutil.copytree(prep.SRC, dst, ignore=shutil.ignore_patterns("*.prebuilt"))
-        err = apply_edits(dst, [(e[0].replace("src/", "", 1) if e[0].startswith("src/") else e[0], e[1], e[2]) for e in m["edits"]])
+        err = apply_edits(dst, [((e[0].replace("src/", "", 1) if e[0].startswith("src/") else e[0]),) + tuple(e[1:]) for e in m["edits"]])
         if err:
             return {"mutant": m["id"], "status": "stale", "why": err}
         failed, broken = [], None
